@@ -63,6 +63,7 @@ func seqInit() {
 		{Name: "seq_mk", Params: []fl.Param{{"v", i32}}, Ret: fl.TResult{Err: fl.Str, Ok: i32}, Body: []fl.Stmt{
 			&fl.If{Cond: fl.B("<", fl.V("v"), fl.L(i32, 0)), Then: []fl.Stmt{&fl.ReturnErr{X: fl.S("neg")}}},
 			&fl.Return{X: fl.B("*", fl.V("v"), fl.L(i32, 2))}}},
+		{Name: "seq_neg", Params: []fl.Param{{"v", i32}}, Ret: i32, Body: []fl.Stmt{&fl.Return{X: fl.B("*", fl.V("v"), fl.L(i32, 3))}}},
 		{Name: "seq_fact", Params: []fl.Param{{"n", i32}}, Ret: i32, Body: []fl.Stmt{
 			&fl.If{Cond: fl.B("<=", fl.V("n"), fl.L(i32, 1)), Then: []fl.Stmt{&fl.Return{X: fl.L(i32, 1)}}},
 			&fl.Return{X: fl.B("*", fl.V("n"), fl.C("seq_fact", fl.B("-", fl.V("n"), fl.L(i32, 1))))}}},
@@ -153,6 +154,13 @@ func seqOps() []seqOp {
 		// inside d, which never shrinks below two elements)
 		{"else-dyn-idx", blk(&fl.Let{Name: "jj", T: i32, Init: fl.B("%", x, l(2))}, &fl.If{Cond: fl.B(">", y, l(100000)), Then: []fl.Stmt{as(fl.V("jj"), l(5)), fl.P(fl.V("jj"))},
 			Else: []fl.Stmt{as(fl.Ix(d, fl.V("jj")), fl.B("+", fl.Ix(d, fl.V("jj")), l(1))), as(y, fl.Ix(d, fl.V("jj")))}})},
+		{"match-dyn-idx", blk(&fl.Let{Name: "jj", T: i32, Init: l(1)}, &fl.Match{Subj: x, Arms: []fl.Arm{{Pat: l(4), Body: []fl.Stmt{as(fl.V("jj"), l(5)), fl.P(fl.V("jj"))}},
+			{Pat: l(5), Body: []fl.Stmt{as(y, fl.Ix(d, fl.V("jj")))}}, {Body: []fl.Stmt{as(y, fl.B("+", fl.Ix(d, fl.V("jj")), l(1)))}}}})},
+		// the index variable under an operator, as an argument
+		{"print(-j)", one(fl.P(&fl.Un{Op: "-", X: fl.V("j")}))},
+		{"x=get(-j)", one(as(x, fl.B("+", x, fl.C("seq_neg", &fl.Un{Op: "-", X: fl.V("j")}))))},
+		// a shared reference whose last use is followed, in the same block, by a write to the referent
+		{"ref-then-write", blk(&fl.Let{Name: "rs", T: fl.TRef{Elem: i32}, Init: &fl.Borrow{X: x}}, as(y, fl.B("+", y, fl.V("rs"))), as(x, fl.B("+", x, l(1))))},
 		{"print-bool", one(fl.P(fl.B("&&", fl.B(">", x, y), fl.B("<", b, fl.L(u8, 100)))))},
 	}
 }
@@ -236,7 +244,8 @@ func famSeq(quick bool) []*prog.Case { return seqFrom(seqOps(), quick) }
 func SeqBases(quick bool) []*prog.Case {
 	ops := seqOps()
 	sens := map[string]bool{"a[j]=x": true, "y=a[j]": true, "j=2": true, "y=-j": true, "x+=j*2": true, "a[-j]=y": true, "if-swap": true, "while": true,
-		"match-x": true, "closure": true, "ref-local": true, "y=get(&x)": true, "for-range": true, "catch": true}
+		"match-x": true, "closure": true, "ref-local": true, "y=get(&x)": true, "for-range": true, "catch": true,
+		"elseif-idx": true, "match-idx": true, "else-idx": true, "else-dyn-idx": true, "ref-then-write": true, "match-dyn-idx": true, "print(-j)": true, "x=get(-j)": true}
 	var out []*prog.Case
 	for i := range ops {
 		out = append(out, seqCase(ops, []int{i}))
